@@ -1,2 +1,25 @@
 import Gaftools.Props.TieA2
+import Gaftools.Props.TieA19
 #print axioms Gaftools.TieA.passThrough_gen
+#print axioms Gaftools.TieA.nMatch_eq_lenOf
+#print axioms Gaftools.TieA.opsOf_cons
+#print axioms Gaftools.TieA.softOf_cons
+#print axioms Gaftools.TieA.lenOf_cons
+#print axioms Gaftools.TieA.blockLen_cons
+#print axioms Gaftools.TieA.render_cons
+#print axioms Gaftools.TieA.softOf_codesOk
+#print axioms Gaftools.TieA.codesOk_accepted
+#print axioms Gaftools.TieA.tallyStep_gen
+#print axioms Gaftools.TieA.tally_gen
+#print axioms Gaftools.TieA.tally_fails
+#print axioms Gaftools.TieA.decI_natCast
+#print axioms Gaftools.TieA.tagLoop_gen
+#print axioms Gaftools.TieA.joinTab_cons
+#print axioms Gaftools.TieA.guard_gen
+#print axioms Gaftools.TieA.workerStep_gen
+#print axioms Gaftools.TieA.workerStep_fails
+#print axioms Gaftools.TieA.batchLoop_gen
+#print axioms Gaftools.TieA.worker_gen
+#print axioms Gaftools.TieA.worker_todo
+#print axioms Gaftools.TieA.worker_init
+#print axioms Gaftools.TieA.batchEntry_gen
